@@ -80,6 +80,20 @@ PROPS = {
                       {"name": "hashsets_c", "quick": 100000, "thorough": 1000000, "fuzz_runs": 120000}],
         "assumptions": [SC, MAP_ASSUME, "Hash families: identity, constant, low-bit-sharing, shared-prefix; split-list tables start at 2 buckets with load factor 1-2 so that they grow and initialise buckets recursively during the concurrent phase; Feldman head/array bits at their minimums (4/2)."],
     },
+    "C15": {
+        "harnesses": [{"name": "skiplist", "quick": 120000, "thorough": 1200000, "fuzz_runs": 160000},
+                      {"name": "trees", "variants": list(range(0, 18)), "quick": 120000, "thorough": 1200000, "fuzz_runs": 160000}],
+        "assumptions": [SC, MAP_ASSUME, "extract_min/extract_max are judged by the statement's relaxed contract: 'erase k, k present' transitions plus a conservative counting side condition for 'a smaller (larger) key / any key was present throughout the call'. Skip-list tower heights are forced by a case-driven level generator. Variants 18-19 (Bronson relaxed_insert) are excluded, see known_findings.json; a Bronson extract_min/max livelock shows up as inconclusive cases (liveness is not judged)."],
+    },
+    "C18": {
+        "harnesses": [{"name": "lists_hp", "quick": 120000, "thorough": 1200000, "fuzz_runs": 0},
+                      {"name": "hashsets_b", "quick": 80000, "thorough": 800000, "fuzz_runs": 0},
+                      {"name": "skiplist", "quick": 80000, "thorough": 800000, "fuzz_runs": 0},
+                      {"name": "trees", "variants": list(range(0, 18)), "quick": 80000, "thorough": 800000, "fuzz_runs": 0},
+                      {"name": "seq_skiplist", "quick": 20000, "thorough": 200000, "fuzz_runs": 0},
+                      {"name": "seq_trees", "variants": list(range(0, 18)), "quick": 20000, "thorough": 200000, "fuzz_runs": 0}],
+        "assumptions": [SC, "Quiescent points: barriers inside the concurrent phase (all workers parked) and the end of every case, plus every 4th step of sequential histories. Oracle: traversal visits exactly the keys contains() finds, once, strictly increasing for ordered containers (split lists: strictly increasing split-order values, dummies even / regular odd, walked through a derived probe class); size()/empty() agree where a counter is configured; skip list: every level a strictly increasing sub-list of the level below without marked pointers; EllenBinTree check_consistency() + leaf-oriented BST walk; Bronson check_consistency() + BST/parent/version walk, and strict AVL shape (true heights, |hL-hR| <= 1, stored == true height) only while no removal has succeeded in the container (relaxed balance after removals is by design and the library's own check does not test balance)."],
+    },
     "C19": {
         "harnesses": [{"name": "iter", "variants": [0, 1, 2, 3, 4, 6, 8, 9, 10, 11, 12, 13, 14], "quick": 200000, "thorough": 2000000, "fuzz_runs": 200000}],
         "assumptions": [SC, "Oracle: the element an iterator is positioned on keeps its canary/key/tag (really freed memory, ASan); completeness for keys present and untouched during the whole pass (exactly once + order for IterableList, exactly once for hash sets over it, at least once for Feldman); erase_at linearised as 'erase exactly this tag' in the updaters' history.",
@@ -91,7 +105,9 @@ PROPS = {
                       {"name": "seq_lists_rcu", "quick": 40000, "thorough": 400000, "fuzz_runs": 0},
                       {"name": "seq_hashsets_a", "quick": 40000, "thorough": 400000, "fuzz_runs": 0},
                       {"name": "seq_hashsets_b", "quick": 40000, "thorough": 400000, "fuzz_runs": 0},
-                      {"name": "seq_hashsets_c", "quick": 30000, "thorough": 300000, "fuzz_runs": 0}],
+                      {"name": "seq_hashsets_c", "quick": 30000, "thorough": 300000, "fuzz_runs": 0},
+                      {"name": "seq_skiplist", "quick": 30000, "thorough": 300000, "fuzz_runs": 0},
+                      {"name": "seq_trees", "variants": list(range(0, 18)), "quick": 30000, "thorough": 300000, "fuzz_runs": 0}],
         "libs": BOOST,
         "assumptions": ["Single thread, no scheduler. Oracle: step-wise differential against std::map / std::deque / std::multiset reference models (return values, observed tags, functor-call contract, update triple, size()/empty()/clear(), pop/extract order, full content compare every 4 steps, disposer count per intrusive item)."],
     },
@@ -160,6 +176,10 @@ _RCU_TEXT = ("Bounded exploration of generated reader/writer programs (nested re
              "schedules for all four flavours incl. the reclamation thread and simulated signal delivery; held on every case explored.")
 
 MANIFEST_TEXT = {
+    "C15": {"text": "Bounded exploration of generated client programs x schedules over SkipListSet/Map (HP, DHP, four RCU flavours, nogc; forced tower heights), EllenBinTreeSet/Map (HP, DHP, RCU) and BronsonAVLTreeMap (value + pointer variants, injecting and pool monitors): linearizability with insertion tags, relaxed extract_min/max contract, functor contract, quiescent structure checks. Held on every case explored.",
+            "note": _SCHED_NOTE, "technique": "schedule-controlled property-based testing (rapidcheck + libFuzzer) with a linearizability oracle"},
+    "C18": {"text": "Quiescent-point invariants checked after generated concurrent histories (barrier points inside the run and the end of each case) and after generated sequential histories for lists, split lists, skip lists, EllenBinTree and BronsonAVLTreeMap, through iterators, the containers' own consistency checks and derived probe classes that walk the raw structure. Held at every quiescent point explored.",
+            "note": _SCHED_NOTE, "technique": "schedule-controlled and sequential property-based testing (rapidcheck) with structural-invariant oracles at quiescent points"},
     "C10": {"text": 'Bounded exploration of generated push_front/push_back/pop_front/pop_back programs x schedules over FCDeque (std::deque and boost::container::deque, elimination on/off, combine passes 1..4, compact factors 1,2,1024, all wait strategies) with a deque linearizability check; client threads are real threads whose exit is scheduled. Held on every case explored.', "note": _SCHED_NOTE, "technique": 'schedule-controlled property-based testing (rapidcheck + libFuzzer) with a linearizability oracle'},
     "C11": {"text": 'Bounded exploration of generated push/pop programs x schedules over FCPriorityQueue (linearizability against a max-priority queue with ties) and MSPriorityQueue (conservation, conservative failure rules, bounded max-PQ linearizability for histories without push/pop overlap, capacities 1..16). Held on every case explored.', "note": _SCHED_NOTE, "technique": 'schedule-controlled property-based testing (rapidcheck + libFuzzer) with a linearizability oracle'},
     "C13": {"text": 'Bounded exploration of generated client programs x schedules over MichaelList, LazyList and IterableList as value sets, key-value lists and intrusive lists with HP, DHP, the four RCU flavours and nogc (62 variants): linearizability with insertion tags, functor contract, quiescent checks. Held on every case explored.', "note": _SCHED_NOTE, "technique": 'schedule-controlled property-based testing (rapidcheck + libFuzzer) with a linearizability oracle'},
